@@ -473,3 +473,64 @@ class EvaluateLevelvec(Contract):
 
 CONTRACTS += [GlobalSetGrid(), GlobalIntegrate(), CalcOperationDimWise(), EvaluateLevelvec()]
 ASSUMPTIONS += ["Integration.calculate_operation_dimension_wise / evaluate_levelvec: the component quadrature is an uninterpreted function of the grid's current point sets, the level vector and the box"]
+
+
+# --------------------------------------------------------------------------- the publicly exposed combined rule (standard and dimension-wise strategies)
+class PointsWeightsComponent(Contract):
+    file, qualname = "sparseSpACE/StandardCombi.py", "StandardCombi.get_points_and_weights_component_grid"
+    trusted = True
+    note = "points and weights of ONE component grid in its current state (C08/C09; overridden by the dimension-wise strategy): some list of points and equally many weights"
+
+    def inputs(self, S):
+        return {"self": Obj("StandardCombi", {}), "levelvec": Opaque(S.const("levelvec", P.U))}
+
+    def result(self, S, env):
+        k = len(S.ex.ghost.setdefault("rules", []))
+        n = S.int("rule%d.len" % k)
+        S.assume(n >= 0)
+        pts, ws = S.seq("rule%d.points" % k, n, P.U, kind="list"), S.seq("rule%d.weights" % k, n, R, kind="list")
+        S.ex.ghost["rules"].append((env["levelvec"], pts, ws))
+        return Seq("tuple", [pts, ws])
+
+
+class CombinedRule(Contract):
+    """StandardCombi.get_points_and_weights (schemes of 1-3 component grids, any number of points per grid): the returned rule is, in scheme order, every
+    component grid's CURRENT points with its weights multiplied by the grid's coefficient -- so that sum w f(p) is the coefficient-weighted sum of the component
+    quadratures; every component rule is requested exactly once, for that grid's level vector, in this call"""
+    file, qualname = "sparseSpACE/StandardCombi.py", "StandardCombi.get_points_and_weights"
+
+    def __init__(self, n):
+        self.n = n
+        self.label = "StandardCombi.get_points_and_weights[%d component grid%s]" % (n, "" if n == 1 else "s")
+
+    def inputs(self, S):
+        grids = [Obj("ComponentGridInfo", dict(levelvector=Opaque(S.const("lv%d" % k, P.U)), coefficient=S.real("coeff%d" % k))) for k in range(self.n)]
+        return {"self": Obj("StandardCombi", dict(scheme=Seq("list", grids)))}
+
+    def post(self, S, old, env, result):
+        rules = S.ex.ghost.get("rules", [])
+        ok = isinstance(result, Seq) and result.concrete and len(result.items) == 2 and all(isinstance(x, Seq) for x in result.items)
+        if not ok or len(rules) != self.n:
+            return [Cl("returns-the-rule-assembled-from-one-request-per-component-grid", False, prop=True)]
+        tp, tw = [x.to_symbolic() for x in result.items]
+        grids = old["self"].fields["scheme"].items
+        out = [Cl("returns-the-rule-assembled-from-one-request-per-component-grid", True, prop=True),
+               Cl("each-component-rule-is-requested-for-its-own-level-vector", z3.And(*[rules[k][0].term == grids[k].fields["levelvector"].term for k in range(self.n)]), prop=True)]
+        off = z3.IntVal(0)
+        i = z3.Int("cri")
+        for k in range(self.n):
+            _, pts, ws = rules[k]
+            nk = V(pts.len())
+            out.append(Cl("component-%d-points-in-place-weights-scaled-by-its-coefficient" % k,
+                          z3.ForAll([i], z3.Implies(z3.And(i >= 0, i < nk), z3.And(z3.Select(tp.arr, off + i) == z3.Select(pts.arr, i),
+                                                                                  z3.Select(tw.arr, off + i) == z3.Select(ws.arr, i) * grids[k].fields["coefficient"]))), prop=True))
+            off = off + nk
+        out.append(Cl("nothing-else-in-the-rule", z3.And(V(tp.len()) == off, V(tw.len()) == off), prop=True))
+        return out
+
+    @staticmethod
+    def model_to_input(model):
+        return {"kind": "C05.dimwise_component"}
+
+
+CONTRACTS += [PointsWeightsComponent(), CombinedRule(1), CombinedRule(2), CombinedRule(3)]
